@@ -11,7 +11,7 @@ ENTRIES = []
 RULE = ("irregular, shuffled abscissae (40% on grid nodes, points exactly at xmin/xmax, points outside [xmin,xmax]), random xmin, step, "
         "xmax (xmax on or off the grid), every bin populated; second data vector and coefficients for linearity; "
         "non-trivial = >= 3 bins and >= 1 point outside the range or off the nodes")
-DIST = ["onnodes", "shuffled", "dups"]
+DIST = ["onnodes", "shuffled", "dups", "intopts"]
 SHRINK = None
 TRUSTED = ["lean/PystogVerif/Model/Rebin.lean is a hand-written model of Pre_Proc.rebin (modelled, not verified), tied to /repo by the correspondence run"]
 
@@ -19,6 +19,10 @@ TRUSTED = ["lean/PystogVerif/Model/Rebin.lean is a hand-written model of Pre_Pro
 def gen(rng, i, tier):
     xmin = float(rng.choice([0.0, 0.5, 1.0, 0.3]))
     xdiv = float(rng.choice([0.1, 0.05, 0.25, 0.02, 0.13]))
+    intopts = bool(rng.random() < 0.12)
+    if intopts:
+        # whole-number grid parameters, handed over as Python integers (rebin(x, y, 0, 1, 10)): same numbers, same result
+        xmin, xdiv = float(rng.integers(0, 3)), float(rng.integers(1, 4))
     nb = int(rng.integers(3, 40 if tier == "quick" else 400))
     xmax = xmin + nb * xdiv + (float(rng.uniform(0, xdiv)) if rng.random() < 0.5 else 0.0)
     onnodes = bool(rng.random() < 0.4)
@@ -46,7 +50,7 @@ def gen(rng, i, tier):
     y = rng.normal(size=len(x)) * 2 + 1
     z = rng.normal(size=len(x))
     return dict(x=tolist(x), y=tolist(y), z=tolist(z), xmin=xmin, xdiv=xdiv, xmax=float(xmax), a=float(rng.normal()), b=float(rng.normal()),
-                c=float(rng.normal() * 3), onnodes=onnodes, shuffled=shuffled, dups=dups, perm=[int(t) for t in rng.permutation(len(x))])
+                c=float(rng.normal() * 3), onnodes=onnodes, shuffled=shuffled, dups=dups, intopts=intopts, perm=[int(t) for t in rng.permutation(len(x))])
 
 
 def hat_reference(x, y, xmin, xdiv, xmax):
@@ -121,6 +125,16 @@ def evaluate(case):
     g2, v2 = Pre_Proc.rebin(x, y, xmin, xdiv, xmax)
     if not (np.array_equal(np.asarray(g2, dtype=float), g) and np.array_equal(np.asarray(v2, dtype=float), v)):
         fails.append("rebin: editing the arrays returned by one call in place changes the result of the next call with the same arguments")
+    if case.get("intopts"):
+        im, idv = int(xmin), int(xdiv)
+        ix = int(xmax) if float(xmax).is_integer() else xmax
+        try:
+            gi, vi = Pre_Proc.rebin(x, y, im, idv, ix)
+            if not (np.array_equal(np.asarray(gi, dtype=float), g) and np.allclose(np.asarray(vi, dtype=float), v, rtol=1e-13, atol=0)):
+                fails.append(f"rebin(x, y, {im!r}, {idv!r}, {ix!r}) with integer-typed grid parameters differs from the same numbers given as floats "
+                             "(integer truncation of the weighted sums)")
+        except ZeroDivisionError:
+            fails.append("rebin with integer-typed grid parameters raises ZeroDivisionError where the same numbers as floats do not")
     xs, ys = x.copy(), y.copy()
     Pre_Proc.rebin(xs, ys, xmin, xdiv, xmax)
     if not (np.array_equal(xs, x) and np.array_equal(ys, y)):
